@@ -136,6 +136,43 @@ func codesOnLine(o *driver.Outcome, pkg, file string, line int, keep func(string
 	return out
 }
 
+var sibTypeRe = regexp.MustCompile(`\[type ([A-Za-z_][A-Za-z0-9_]*)\]`)
+
+// tonl01ElsewhereExplains: the two code lists differ by exactly one TONL01, and the
+// package on the lacking side reports TONL01 for the same type name somewhere else.
+func tonl01ElsewhereExplains(a, b []string, baseOut, sibOut *driver.Outcome, sp SibPair) bool {
+	drop := func(l []string) (rest []string, n int) {
+		for _, c := range l {
+			if c == "TONL01" {
+				n++
+			} else {
+				rest = append(rest, c)
+			}
+		}
+		return
+	}
+	ra, na := drop(a)
+	rb, nb := drop(b)
+	if strings.Join(ra, ",") != strings.Join(rb, ",") || na == nb {
+		return false
+	}
+	m := sibTypeRe.FindStringSubmatch(sp.Stmt)
+	if m == nil {
+		return false
+	}
+	word := regexp.MustCompile(`\b` + regexp.QuoteMeta(m[1]) + `\b`)
+	out, pkg := sibOut, sp.DeclPkg
+	if na < nb {
+		out, pkg = baseOut, sp.UserPkg
+	}
+	for _, d := range out.Diags[pkg] {
+		if cm := codeRe.FindStringSubmatch(d.Msg); cm != nil && cm[1] == "TONL01" && word.MatchString(d.Msg) {
+			return true
+		}
+	}
+	return false
+}
+
 func clip(s string, n int) string {
 	if len(s) > n {
 		return s[:n] + "…"
@@ -310,6 +347,13 @@ func Execute(c *Case, chooser func(i int) sched.Chooser, record func(i int, star
 			agg.Inc("sibling_statement_comparisons")
 			if len(a) > 0 {
 				agg.Inc("probe.cross_package_statement_reported")
+			}
+			if strings.Join(a, ",") != strings.Join(b, ",") && tonl01ElsewhereExplains(a, b, baseOut, sibOut, sp) {
+				// the once-per-file-and-type rule of TONL01 is C03's: if the side that lacks
+				// the TONL01 reports that very type at another place of the same package, the
+				// annotation did arrive there and only the choice of the reporting place differs
+				agg.Inc("probe.sibling_tonl01_reported_elsewhere_in_package")
+				continue
 			}
 			if strings.Join(a, ",") != strings.Join(b, ",") {
 				return &failure{"importer-sees-annotation-differently",
